@@ -5,7 +5,6 @@ import (
 
 	"github.com/verily-src/fhirpath-go/fhirpath/internal/expr"
 	"github.com/verily-src/fhirpath-go/fhirpath/system"
-	"google.golang.org/protobuf/proto"
 )
 
 // First Returns a collection containing only the first item in the input collection.
@@ -119,19 +118,20 @@ func Intersect(ctx *expr.Context, input system.Collection, args ...expr.Expressi
 	if err != nil {
 		return nil, err
 	}
-	var result system.Collection
+	// Keep each item of the input that equals some item of the argument, once.
+	// Primitives are returned as System values; complex elements as themselves.
+	result := system.Collection{}
 	for _, i := range input {
-		for _, c := range argValues {
-			if checkEquality(i, c) {
-				v, _ := system.From(c)
-				result = append(result, v)
-			}
+		if !argValues.Contains(i) || result.Contains(i) {
+			continue
+		}
+		if v, err := system.From(i); err == nil {
+			result = append(result, v)
+		} else {
+			result = append(result, i)
 		}
 	}
-	if len(result) == 0 {
-		return system.Collection{}, nil
-	}
-	return removeDuplicates(result), nil
+	return result, nil
 }
 
 // Exclude returns the set of elements that are not in the other collection.
@@ -200,39 +200,4 @@ func IsDistinct(ctx *expr.Context, input system.Collection, args ...expr.Express
 		return nil, err
 	}
 	return system.Collection{system.Boolean(len(got) == len(input))}, nil
-}
-
-func removeDuplicates(collection system.Collection) system.Collection {
-	seen := make(map[any]bool)
-	var result system.Collection
-	for _, val := range collection {
-		if _, ok := seen[val]; !ok {
-			seen[val] = true
-			result = append(result, val)
-		}
-	}
-	return result
-}
-
-func checkEquality(lhs, rhs any) bool {
-	return checkSystemEquality(lhs, rhs) || checkProtoEquality(lhs, rhs)
-}
-
-func checkSystemEquality(lhs, rhs any) bool {
-	l, lerr := system.From(lhs)
-	r, rerr := system.From(rhs)
-	if lerr == nil && rerr == nil {
-		got, ok := system.TryEqual(l, r)
-		return got && ok
-	}
-	return false
-}
-
-func checkProtoEquality(lhs, rhs any) bool {
-	l, lok := lhs.(proto.Message)
-	r, rok := rhs.(proto.Message)
-	if lok && rok {
-		return proto.Equal(l, r)
-	}
-	return false
 }
